@@ -5,7 +5,8 @@
 // same-path / multi-method family (escaped/unescaped twin patterns, all multi-method registration sites,
 // 1 or 5 handlers per call); thorough adds every 3-entry sequence over a sub-alphabet. Small side families (side.go)
 // add dimensions the main product does not have: every method / custom RequestMethods lists, override targets that
-// need normalisation and other handler behaviours, registrations after start-up, the other registration sites.
+// need normalisation and other handler behaviours, registrations after start-up, the other registration sites, and
+// every table of exactly 3 and 4 entries over a reduced alphabet (what the END of a longer chain replies).
 package main
 
 import (
@@ -33,7 +34,7 @@ type customCtx struct {
 	fiber.DefaultCtx
 }
 
-const maxLen = 3
+const maxLen = 4 // (4 entries: only the chain_end side family)
 
 // uriOf gives the request URI for a raw path ("//" alone would be read as a scheme-relative URI).
 func uriOf(p string) string {
@@ -379,6 +380,9 @@ func (ws *wstate) fire(app *fiber.App, h fasthttp.RequestHandler, ci, ctxKind in
 			if ref.spec && ref.status == 405 {
 				a.exp405++
 			}
+			if ref.no405 {
+				a.no405++
+			}
 			if it.fam != famMain && famHit(it.fam, ci, tbl, late, rm, ref) {
 				a.famHits[it.fam]++
 			}
@@ -426,6 +430,11 @@ func (ws *wstate) conforms(ref *refResult, o *observed) (ok, unspecified bool) {
 		return false, false
 	}
 	if !ref.spec {
+		if ref.no405 {
+			// an endpoint of the final method and path ran: "no endpoint matches" does not hold, 405 is not a reply
+			// the statement allows (404 or anything else is not judged)
+			return o.status != 405, false
+		}
 		return true, true
 	}
 	return o.status == ref.status && (ref.status != 405 || (o.allow == ref.allow && o.badAl == "")), false
@@ -512,12 +521,24 @@ func entryID(e entry) int {
 
 // orderKey gives a total order on cases so that the example kept per signature is the same on every run
 // (smallest table first, then default ctx / default config first).
+// Tables of 4 entries (chain_end family) do not fit 4 x 15 bits: their entries are packed into 11 bits each
+// (kind < 8, behaviour < 4), which the family's alphabet guarantees and the code below checks.
 func orderKey(tbl []entry, late, ci, ctxKind, rm, pi int) uint64 {
 	k := uint64(len(tbl))
-	for i := 0; i < maxLen; i++ {
-		k <<= 15
-		if i < len(tbl) {
-			k |= uint64(entryID(tbl[i]))
+	if len(tbl) == 4 {
+		k <<= 1
+		for _, e := range tbl {
+			if e.kind >= 8 || e.beh >= 4 {
+				core.Fatal("orderKey: a 4-entry table with kind %d / behaviour %d", e.kind, e.beh)
+			}
+			k = k<<11 | uint64(((int(e.kind)<<5|int(e.pat))<<2|int(e.beh))<<1|int(e.cl))
+		}
+	} else {
+		for i := 0; i < 3; i++ {
+			k <<= 15
+			if i < len(tbl) {
+				k |= uint64(entryID(tbl[i]))
+			}
 		}
 	}
 	k = k<<2 | uint64(late)
@@ -609,6 +630,8 @@ func expOf(r *refResult, ci int) map[string]any {
 		m["status"] = 200
 	case r.failed:
 		m["status"] = "not judged (the last handler returned an error without calling Next: the chain ends there)"
+	case r.no405:
+		m["status"] = "anything but 405 (an endpoint matching the final method and path ran and called Next: 'no endpoint matches' does not hold, so 405 + Allow is not the reply; 404 vs. another status is not fixed by the statement)"
 	case !r.spec:
 		m["status"] = "unspecified (an endpoint ran and called Next, or the only matching endpoint is registered before the override)"
 	default:
@@ -637,7 +660,7 @@ type sampleRec struct {
 type acc struct {
 	samples                                                   []sampleRec
 	apps, evals, nontrivial, bucketed, overrides, unspecified int64
-	multiRun, chainRun, exp405, unknownMethod                 int64
+	multiRun, chainRun, exp405, unknownMethod, no405          int64
 	famEvals, famHits                                         [nFams]int64
 	outc                                                      [5][6][4]int64
 	viol                                                      map[string]*vrec
@@ -918,7 +941,7 @@ func main() {
 			"matching semantics are not judged (C02/C03): 'route i handles (method, path)' is the answer of the real Route.match on the route object(s) that the same registration creates when it is the ONLY registration of an app with the same config",
 			"detection path / path of a raw request path come from the real configDependentPaths (validated at start-up against live contexts, also after Path() overrides)",
 			"handler-level drive through app.Handler() on a fake connection; one handler per registration call except in the same-path family, where a call passes 1 or 5 handlers (all but the last are Next() pass-throughs) and a registration counts as run when its whole chain ran in order",
-			"status/Allow at the end of a chain are only judged when no endpoint (non-Use entry) ran and no same-method endpoint for the final path exists anywhere in the table; otherwise the statement is silent (counted in unspecified_skipped)",
+			"status/Allow at the end of a chain are only judged when no endpoint (non-Use entry) ran and no same-method endpoint for the final path exists anywhere in the table; when an endpoint that matched the final method and path ran and called Next, only 'the status is not 405' is judged (405 + Allow is the reply 'when no endpoint matches'); otherwise the statement is silent (counted in unspecified_skipped)",
 			"side families: Method(x) with x not among the app's RequestMethods is 'no override' (documented); a request whose method the app does not have (501 in fiber) and the status after a handler returned an error without calling Next are not judged; a registration after start-up is only judged after app.RebuildTree()",
 			"a deviation that carries one of the 'override-...' class names of the two known mechanisms is additionally replayed on a ~40-line model of 'continue at the old numeric index in the slice of the new bucket / method stack, walking merged handler lists without re-matching' over the app's REAL bucket slices; if the model does not reproduce the handlers that ran, the signature gets the suffix beyond-index-reuse-and-merge (never matched by a known finding)",
 		},
@@ -1036,6 +1059,7 @@ func enumerate(r *core.Run, items []item) *acc {
 		tot.chainRun += a.chainRun
 		tot.exp405 += a.exp405
 		tot.unknownMethod += a.unknownMethod
+		tot.no405 += a.no405
 		for f := range a.famEvals {
 			tot.famEvals[f] += a.famEvals[f]
 			tot.famHits[f] += a.famHits[f]
@@ -1082,6 +1106,7 @@ func export(r *core.Run, a *acc) {
 	r.Add("evaluations_running_a_multi_handler_registration", a.chainRun)
 	r.Add("evaluations_expecting_405", a.exp405)
 	r.Add("requests_with_a_method_the_app_does_not_have", a.unknownMethod)
+	r.Add("evaluations_judged_not_405_because_an_endpoint_of_the_final_method_and_path_ran", a.no405)
 	for f := 1; f < nFams; f++ {
 		r.Add("side_"+famNames[f]+"_evaluations", a.famEvals[f])
 		r.Add("side_"+famNames[f]+"_evaluations_deciding_the_new_dimension", a.famHits[f])
